@@ -298,6 +298,24 @@ fn has_method_definition(code: &str) -> bool {
     false
 }
 
+/// a `--[=*[ … ]=*]` comment that spans several lines (over-approximation: also inside strings)
+fn has_multiline_block_comment(code: &str) -> bool {
+    let mut rest = code;
+    while let Some(i) = rest.find("--[") {
+        rest = &rest[i + 3..];
+        let eq = rest.bytes().take_while(|b| *b == b'=').count();
+        if rest.as_bytes().get(eq) == Some(&b'[') {
+            let close = format!("]{}]", "=".repeat(eq));
+            let body = &rest[eq + 1..];
+            let end = body.find(&close).unwrap_or(body.len());
+            if body[..end].contains('\n') {
+                return true;
+            }
+        }
+    }
+    false
+}
+
 /// Regions of the recorded known findings (`known_findings.json`, property C04): an entry with
 /// `"region": {"rule": r, "code_contains": c, "excuses": "all" | "local_function_names"}`
 /// excuses, for pipelines containing rule `r` on programs containing `c`, either every marker or
@@ -307,8 +325,16 @@ fn known_region(code: &str, rules: &[String], known: &[Value]) -> Vec<(String, O
     let mut regions = Vec::new();
     for k in known {
         let region = &k["region"];
-        let (Some(rule), Some(id)) = (region["rule"].as_str(), k["id"].as_str()) else { continue };
-        if !rules.iter().any(|r| r.contains(rule)) {
+        let Some(id) = k["id"].as_str() else { continue };
+        let region_rules: Vec<&str> = match (region["rule"].as_str(), region["rules"].as_array()) {
+            (Some(r), _) => vec![r],
+            (None, Some(rs)) => rs.iter().filter_map(|r| r.as_str()).collect(),
+            _ => continue,
+        };
+        if !rules.iter().any(|r| region_rules.iter().any(|x| r.contains(x))) {
+            continue;
+        }
+        if region["when"].as_str() == Some("multiline_block_comment") && !has_multiline_block_comment(code) {
             continue;
         }
         if let Some(needle) = region["code_contains"].as_str() {
@@ -598,7 +624,7 @@ pub fn run(report: &mut Report, replay: Option<&str>) {
     acc.flush(report);
 
     let threads = 12usize;
-    let programs_per_thread = if thorough { 1_500 } else { 150 };
+    let programs_per_thread = if thorough { 10_000 } else { 1_000 };
     let pipelines_per_program = 3;
     let seeds: Vec<Rng> = (0..threads).map(|_| rng.fork()).collect();
     let handles: Vec<_> = seeds
